@@ -487,6 +487,19 @@ def assembled_run(meta, seed, tier):
         sizes = rng.choice([[1 << 20], [7, 16, 33], [1, 2, 3, 5], [48], [len(stream) // 2 + 1]])
         data = file_of([wrap_container(c, method, level or 6) for c in chunk(rng, stream, sizes)])
         cases.append({'mode': kind, 'data': data, 'expect': expect, 'layout': [(t, len(p)) for t, p in parts], 'stream': stream})
+    # large unknown objects (64 KiB and more) whose payload is full of images of known objects: a reader that skips by
+    # anything but the full declared 32-bit size lands inside the payload and delivers the images / loses the neighbours
+    for size in ((65536, 65600, 100000) if tier == 'quick' else (65535, 65536, 65552, 65600, 70001, 100000, 131072, 200003)):
+        o1, e1 = rng.choice(encs)
+        o3, e3 = rng.choice(encs)
+        img = rng.choice(encs)[1]
+        body = (img * (size // len(img) + 1))[:size - 16]
+        unk = struct.pack('<4sHHII', SIG_OBJ, 16, 1, size, rng.choice(unknown_codes)) + body
+        parts = [('known', e1), ('unknown', unk), ('known', e3), ('known', e1)]
+        stream = b''.join(p for _, p in parts)
+        method, level = rng.choice([(0, 0), (2, 1)])
+        data = file_of([wrap_container(c, method, level or 6) for c in chunk(rng, stream, rng.choice([[1 << 20], [0x20000], [4096]]))])
+        cases.append({'mode': 'unknown-large', 'data': data, 'expect': [e1, e3, e1], 'layout': [(t, len(p)) for t, p in parts], 'stream': stream})
     # hostile object / container headers (C10): sizes 0, below / at / above what is there, huge
     for k in range(60 if tier == 'quick' else 600):
         o, e = rng.choice(encs)
